@@ -84,15 +84,7 @@ Proof.
   apply Bool.orb_false_iff in H. destruct H as [H1 H2]. rewrite H1, IH by exact H2. reflexivity.
 Qed.
 
-(* a revision lists each (group, kind) once and each name once *)
-Fixpoint simple_cs (cs : list rck) : bool :=
-  match cs with
-  | [] => true
-  | ck :: cs' => negb (existsb (gk_match (ck_group ck) (ck_kind ck)) cs') &&
-                 nodup_str (ck_names ck) && simple_cs cs'
-  end.
-
-Definition simple (r : revision) : bool := simple_cs (rev_children r).
+(* simple_cs / simple (each (group, kind) once, each name once) are defined in RollClaims.v *)
 
 (* ------------------------------------------------------------------ *)
 (* add_child                                                           *)
@@ -683,6 +675,82 @@ Proof.
 Qed.
 
 (* ------------------------------------------------------------------ *)
+(* the first pass only ever lists desired names                        *)
+(* ------------------------------------------------------------------ *)
+
+Lemma move_at_lists_sub k rem m p k' : listsP (move_at k rem m p) k' = true -> k' = k \/ listsP p k' = true.
+Proof.
+  intros H. destruct (ck_dec k k') as [<-|Hne]; [left; reflexivity|].
+  rewrite move_at_other in H by exact Hne. right. exact H.
+Qed.
+
+Lemma move_at_desired k rem m p : pr_desired (move_at k rem m p) = pr_desired p.
+Proof.
+  destruct k as [[g kd] n]. unfold move_at, addf, remf, set_rev.
+  destruct (Nat.eqb m 0); [reflexivity|]. destruct (rem m); reflexivity.
+Qed.
+
+Definition all_desired (ds : dlist) (prs : list prev) : Prop :=
+  forall p g kd n, In p prs -> listsP p (g, kd, n) = true -> find_desired ds g kd n <> None.
+
+Definition head_desired (ds : dlist) (prs : list prev) : Prop :=
+  exists p0 rest, prs = p0 :: rest /\ pr_desired p0 = ds.
+
+Lemma moved_all_desired ds g kd n rem prs prs' :
+  moved (g, kd, n) rem prs prs' -> find_desired ds g kd n <> None ->
+  all_desired ds prs -> all_desired ds prs'.
+Proof.
+  intros Hmv Hd Hall p' g' kd' n' Hin Hl. apply In_nth_error in Hin. destruct Hin as [m Hm].
+  destruct (moved_bwd _ _ _ _ _ _ Hmv Hm) as (p & Hp & ->).
+  apply move_at_lists_sub in Hl. destruct Hl as [[= -> -> ->]|Hl]; [exact Hd|].
+  eapply Hall; eauto. eapply nth_error_In; eauto.
+Qed.
+
+Lemma moved_head_desired ds k rem prs prs' : moved k rem prs prs' -> head_desired ds prs -> head_desired ds prs'.
+Proof.
+  intros Hmv (p0 & rest & -> & Hd). pose proof (Hmv 0) as H0. cbn [nth_error option_map] in H0.
+  destruct prs' as [|p0' rest']; [discriminate|]. cbn [nth_error] in H0. injection H0 as ->.
+  exists (move_at k rem 0 p0), rest'. split; [reflexivity|]. rewrite move_at_desired. exact Hd.
+Qed.
+
+Lemma fp_step_desired c pns observed ds prs cl e prs' cl' :
+  all_desired ds prs -> head_desired ds prs -> In e ds ->
+  fp_step c pns observed (prs, cl) e = (prs', cl') ->
+  all_desired ds prs' /\ head_desired ds prs'.
+Proof.
+  intros Hall Hhd Hin Hs. destruct e as [[[av kind] name] dc]. unfold fp_step in Hs. cbv zeta in Hs.
+  pose proof (find_desired_in ds av kind name dc Hin) as Hd.
+  assert (Hsame : (prs, cl) = (prs', cl') -> all_desired ds prs' /\ head_desired ds prs').
+  { intros [= <- <-]. auto. }
+  destruct (negb (is_rolling c (group_of av) kind)); [auto|].
+  destruct (claimant cl (group_of av, kind, name)) as [j|] eqn:Hc.
+  - destruct j as [|i]; [auto|].
+    destruct (find_observed pns observed (group_of av) kind name) as [child|]; [|auto].
+    destruct (apply_update (obj_map child) (obj_map dc)) as [n| |]; auto.
+    destruct (jeqb (JObj n) child); [|auto].
+    injection Hs as <- <-.
+    pose proof (moved_add_rem (group_of av, kind, name) i prs) as Hmv. unfold addf, remf in Hmv.
+    split; [eapply moved_all_desired; eauto|eapply moved_head_desired; eauto].
+  - injection Hs as <- <-.
+    pose proof (moved_add (group_of av, kind, name) prs) as Hmv. unfold addf in Hmv.
+    split; [eapply moved_all_desired; eauto|eapply moved_head_desired; eauto].
+Qed.
+
+Lemma fp_fold_desired c pns observed ds : forall l prs cl prs' cl',
+  (forall e, In e l -> In e ds) ->
+  all_desired ds prs -> head_desired ds prs ->
+  fold_left (fp_step c pns observed) l (prs, cl) = (prs', cl') ->
+  all_desired ds prs' /\ head_desired ds prs'.
+Proof.
+  induction l as [|e l IH]; intros prs cl prs' cl' Hsub Hall Hhd Hf; cbn [fold_left] in Hf.
+  - injection Hf as <- <-. auto.
+  - destruct (fp_step c pns observed (prs, cl) e) as [prs1 cl1] eqn:Hs.
+    destruct (fp_step_desired c pns observed ds prs cl e prs1 cl1 Hall Hhd (Hsub e (or_introl eq_refl)) Hs)
+      as [Hall1 Hhd1].
+    eapply IH; eauto. intros e' Hin. apply Hsub. now right.
+Qed.
+
+(* ------------------------------------------------------------------ *)
 (* the second pass                                                     *)
 (* ------------------------------------------------------------------ *)
 
@@ -726,3 +794,4 @@ Print Assumptions update_nth_nth.
 Print Assumptions excl_of_count.
 Print Assumptions fp_fold_inv.
 Print Assumptions second_pass_excl.
+Print Assumptions fp_fold_desired.
